@@ -132,6 +132,58 @@ pub fn run(run: &RunInfo) -> Summary {
         });
         acc.merge(part);
     }
+    // a slow terminal (every reply packet 25 s / 59 s after the previous one, inside the per-packet
+    // time-out, so an exchange takes longer than one time-out in total) and tokens longer than any
+    // field the client could cut them to, which share their first 8 / 16 / 32 / 64 characters
+    {
+        let mut passes: Vec<(String, usize, Vec<Op>, u64, usize)> = vec![];
+        for slow in [25_000u64, 59_000] {
+            for max in 1..=2usize {
+                // (no read_card here: its per-packet time-out is read_card_timeout + 2 = 17 s)
+                passes.push((format!("slow={slow}/max={max}"), max, ops(&["A", "B"]).into_iter().filter(|o| !matches!(o, Op::ReadCard)).collect(), slow, if run.thorough() { 3 } else { 2 }));
+            }
+        }
+        for k in [8usize, 16, 32, 64] {
+            let pre: String = (0..k).map(|i| (b'a' + (i % 26) as u8) as char).collect();
+            let (ta, tb) = (format!("{pre}1"), format!("{pre}2"));
+            passes.push((format!("shared-prefix={k}"), 2, ops(&[ta.as_str(), tb.as_str()]), 0, if run.thorough() { 4 } else { 3 }));
+        }
+        let part = par_for(passes.len(), |ix, acc| {
+            let (name, max, p_ops, slow, d) = &passes[ix];
+            if skip_for_replay(run, &format!("c07/{name}/")) {
+                return;
+            }
+            let p = HistParams {
+                max: *max,
+                depth: *d,
+                ops: p_ops.clone(),
+                dangling: None,
+                reservation_menu: vec![Outcome::Ok, Outcome::Abort(0x6c)],
+                commit_menu: vec![Outcome::Ok],
+                cancel_menu: vec![Outcome::Ok],
+                eod_menu: vec![Eod::Completion],
+                noise: false,
+                delay_ms: *slow,
+                focus19: false,
+                rearm_dangling: false,
+                faults: false,
+            };
+            dbx::explore(0, 200_000_000, |ctx| {
+                let o = history(ctx, &p, None, acc);
+                acc.count("executions", 1);
+                acc.count(if *slow > 0 { "w_slow_histories" } else { "w_long_token_histories" }, 1);
+                if !o.c07.is_empty() {
+                    let choices = ctx.choices();
+                    acc.violation(viol(
+                        format!("c07/{name}/choices={choices:?}"),
+                        format!("transactions_max_num = {max}, {name}\nhistory:\n  {}\nviolations:\n  {}", o.trace.join("\n  "), o.c07.join("\n  ")),
+                        o.trace.len() as u64,
+                    ));
+                }
+            });
+        });
+        acc.merge(part);
+    }
     // state-deduplicated search beyond the depth bound (start from non-initial states too)
     if !skip_for_replay(run, "c07/bfs") || run.replay_only.as_ref().map(|r| r["key"].as_str().unwrap_or("").contains("/bfs/")).unwrap_or(false) {
         for max in 1..=3usize {
@@ -165,6 +217,8 @@ pub fn run(run: &RunInfo) -> Summary {
         ("w_refused_at_max", "a begin was refused at the maximum"),
         ("w_token_reused", "a token was reused after it was closed"),
         ("w_older_of_two", "the older of two open tokens was committed or cancelled"),
+        ("w_slow_histories", "histories against a terminal whose exchanges take longer than one time-out in total"),
+        ("w_long_token_histories", "two open tokens that share a long prefix"),
         ("w_request_resent", "a commit or cancel was re-sent after a transport fault and named the same receipt number"),
         ("w_begin_survived_fault", "a begin hit by a transport fault still recorded the receipt issued for it"),
     ] {
@@ -181,7 +235,7 @@ pub fn run(run: &RunInfo) -> Summary {
         transitions: acc.get("transitions"),
         traces_validated: execs,
         distinct_nontrivial: acc.set_len("states"),
-        rule: format!("real Feig client against the simulated terminal (paused clock): transactions_max_num 0..=3 x all call histories of depth {depth} over {{begin, commit(0), commit(pre), cancel}} x tokens {{A,B,C}} + read_card, the terminal's outcome of every request that really arrives chosen among {{success with the smallest free receipt number, the same followed by a further status information without receipt number, abort 6C, abort FC, completion without receipt}} (reservation) / {{completion, abort}} (commit, cancel). A further pass at depth - 1 uses four related tokens (ACX, X, x, 'X ') with max 2. A second pass at depth - 1 additionally explores every single deviation of the terminal's reply shape (no / two intermediate statuses, a print line or an extra status information ahead of the final packet of any exchange). Finally a state-deduplicated breadth-first search (state = client map, connection flag, terminal ledger) executes every operation with every outcome from every reachable state until no new state appears (at most 12 levels). Every step is compared with the reference model (result class, refused calls cause no traffic, exact request incl. receipt number, clean-up when the map empties, client snapshot == model map). states = distinct (max, client map, terminal ledger)"),
+        rule: format!("real Feig client against the simulated terminal (paused clock): transactions_max_num 0..=3 x all call histories of depth {depth} over {{begin, commit(0), commit(pre), cancel}} x tokens {{A,B,C}} + read_card, the terminal's outcome of every request that really arrives chosen among {{success with the smallest free receipt number, the same followed by a further status information without receipt number, abort 6C, abort FC, completion without receipt}} (reservation) / {{completion, abort}} (commit, cancel). A further pass at depth - 1 uses four related tokens (ACX, X, x, 'X ') with max 2. A second pass at depth - 1 additionally explores every single deviation of the terminal's reply shape (no / two intermediate statuses, a print line or an extra status information ahead of the final packet of any exchange). Further passes: histories of depth 3 (thorough 4) over tokens {{A,B}} with one transport fault (the fault menu of C09) at any packet the terminal sends after Feig::new (requests re-sent after the fault must name the same receipt number, a begin records nothing but a receipt issued for it in this call, other tokens are untouched, refused calls cause no traffic); histories of depth 2 (3) against a terminal that sends every reply packet 25 s resp. 59 s after the previous one; histories of depth 3 (4) with two tokens that share their first 8 / 16 / 32 / 64 characters. Finally a state-deduplicated breadth-first search (state = client map, connection flag, terminal ledger) executes every operation with every outcome from every reachable state until no new state appears (at most 12 levels). Every step is compared with the reference model (result class, refused calls cause no traffic, exact request incl. receipt number, clean-up when the map empties, client snapshot == model map). states = distinct (max, client map, terminal ledger)"),
         exhaustive: true,
         required_witnesses: vec![
             "the state-deduplicated search reached its fixed point".into(),
@@ -190,6 +244,8 @@ pub fn run(run: &RunInfo) -> Summary {
             "a token was reused after it was closed".into(),
             "the older of two open tokens was committed or cancelled".into(),
             "a commit or cancel was re-sent after a transport fault and named the same receipt number".into(),
+            "histories against a terminal whose exchanges take longer than one time-out in total".into(),
+            "two open tokens that share a long prefix".into(),
             "a begin hit by a transport fault still recorded the receipt issued for it".into(),
         ],
         assumptions: vec!["no transport faults in this check (C09/C10)".into(), "which ActiveTransaction text is used when both refusal reasons hold is not specified".into()],
